@@ -46,19 +46,19 @@ CLAIMS = {
             "TLC enumerates all run descriptors of the menu (36 000) and checks C12_Names, StartsWithPrefixSep, ExtDropped, Injective on the three-step naming machine; behaviours are replayed through the real cminx.main in a sandbox (cwd, HOME, settings file synthesised) and the first lines, the module directive and the first entry's doc compared with the ideal.",
             "module doccomments at indentation 0; upper-case extensions not judged for dropping; quick tier replays a seeded sample", "4 C12"),
     "C13": ("spec/Walk.tla, MC_Walk.tla",
-            "TLC explores the walk of cminx.document (file system as state, listing order as environment choice, output directory inside or outside the input tree) and checks C13_PagesAreProcessedFiles, C13_OneIndexPerProcessedDir, C13_OnePagePerFile, C13_NoDivergence against the ideal computed from the initial tree; every terminal behaviour is materialised and run through the real cminx.document with the listing orders imposed; compared: the exact set of files under the output directory (or the documented files in stdout mode); each behaviour is replayed under three listing orders; real walks over random trees are recorded visit by visit and validated by TLC (TraceWalk.tla), which evaluates the C13 predicates on the observed effects.",
-            "tree/pattern menus and bounds as in evidence; symlinks out of scope; string functions on names are inputs", "4 C13"),
+            "TLC explores the walk of cminx.document (file system as state, listing order as environment choice, output directory inside or outside the input tree) and checks C13_PagesAreProcessedFiles, C13_OneIndexPerProcessedDir, C13_OnePagePerFile, C13_NoDivergence against the ideal computed from the initial tree; every terminal behaviour is materialised and run through the real cminx.document with the listing orders imposed; compared: the exact set of files under the output directory (or the documented files in stdout mode) and the body of every page with that of the file documented on its own (captured per worker before any directory run), also into an output directory that holds longer pages of an earlier run; trees include linked, hidden, empty, module-documented and multi-dot files; each behaviour is replayed under three listing orders; real walks over random trees are recorded visit by visit and validated by TLC (TraceWalk.tla), which evaluates the C13 predicates on the observed effects.",
+            "tree/pattern menus and bounds as in evidence; colliding output paths (index.cmake) out of scope; string functions on names are inputs", "4 C13"),
     "C14": ("spec/Walk.tla, MC_Walk.tla",
-            "TLC checks C14_ToctreeExact, C14_NoDangling, C14_Reachable, C14_IndexTitle on the specification; replayed behaviours compare title and toctree entries of every generated index.rst with the processed files/sub-directories; closure (no dangling entry, every page listed) is demanded of every run whatever the tree; recorded walks over random trees are validated by TLC (TraceWalk.tla).",
+            "TLC checks C14_ToctreeExact, C14_NoDangling, C14_Reachable, C14_IndexTitle on the specification; replayed behaviours compare title and toctree entries of every generated index.rst with the processed files/sub-directories; closure (no dangling entry, every page listed) is demanded of every run whatever the tree; symbolic links to directories with follow_symlinks on/off (repaired F17, the pre-fix model is the witness); two directory inputs on one command line; recorded walks over random trees are validated by TLC (TraceWalk.tla).",
             "as C13; separators from {'.', '::'}", "4 C14"),
     "C15": ("spec/Walk.tla, MC_Walk.tla",
-            "TLC checks C15_ProcessedIffNotMatched, C15_NotDescended, C15_ExcludedNotScanned, C15_WholeInputExcluded for every pattern set of the menu and every listing permutation; replayed behaviours compare the documented files with the non-excluded ones and the directories listed (os.walk roots, os.scandir calls) with the excluded set, under three listing orders each; in recorded walks over random trees every observed PathSpec.match_file result is compared by TLC with Walk.Match.",
-            "gitignore semantics of pathspec trusted; pattern forms: name, name/, *.ext, **/name, absolute path", "4 C15"),
+            "TLC checks C15_ProcessedIffNotMatched, C15_NotDescended, C15_ExcludedNotScanned, C15_WholeInputExcluded for every pattern set of the menu and every listing permutation; replayed behaviours compare the documented files with the non-excluded ones and the directories listed (os.walk roots, os.scandir calls) with the excluded set, under three listing orders each; several patterns are split over -e, the -s file and the per-user file; the packaged entry script src/main.py is exercised with glob patterns; in recorded walks over random trees every observed PathSpec.match_file result is compared by TLC with Walk.Match.",
+            "gitignore semantics of pathspec trusted; pattern forms: name, name/, *.ext, **/name, **/parent/glob, absolute path, <ancestor>/* (whole input)", "4 C15"),
     "C16": ("spec/Config.tla, MC_C16.tla",
             "TLC checks C16_Precedence, C16_WrongTypeRejected, C16_ExcludesUnion on the source-stacking machine (Configuration, set_file, set_args, get, all_contents) for every option x every subset of sources, and pairs of options; every behaviour is replayed through the real cminx.main with synthesised YAML sources and the Settings object handed to cminx.document compared field by field, incl. exclude-filter concatenation, output-directory resolution and rejection of wrong-typed values.",
             "wrong types only in the effective source; StrSeq leniency and logging section not judged", "4 C16"),
     "C17": ("spec/Runs.tla, MC_Runs.tla",
-            "TLC checks on the main()-loop machine (shared Settings object, deep copy per input, default prefix written into the copy) that page content depends on input and settings only for every run descriptor x command line of the menu; a seeded sample of the behaviours is executed for real, one OS process each (cwd, spelling, location, PYTHONHASHSEED, listing order through os.walk, repeat, companion inputs before/after) and every generated file compared byte for byte with the canonical run of each input alone.",
+            "TLC checks on the main()-loop machine (shared Settings object, deep copy per input, default prefix written into the copy) that page content depends on input and settings only for every run descriptor x command line of the menu; a seeded sample of the behaviours is executed for real, one OS process each (cwd, spelling, location, PYTHONHASHSEED, listing order through os.walk, repeat, companion inputs before/after) and every generated file compared byte for byte with the canonical run of each input alone; page bodies of selected files are also compared with the file documented alone (nothing a process documented earlier may show); runs go through the packaged entry script src/main.py.",
             "colliding output paths (two directory inputs) out of scope; sample sizes in evidence", "4 C17"),
     "C18": ("spec/Walk.tla (effect log), MC_Walk.tla",
             "TLC checks the effect invariants of the walk specification (C18_NoWritesWithoutOut, C18_NoPrintsWithOut, C18_WritesUnderOut, C18_SortedPerDirectory); each terminal behaviour is run through the real cminx.main with and without -o in fresh sandboxes with complete before/after snapshots (paths and bytes, HOME included) and captured stdout; created/changed/deleted paths are compared with the output directory and stdout with the concatenation of the written pages.",
